@@ -232,10 +232,11 @@ class LeaseCheckingCrawler(ShareCrawler):
             #  expired-or-not according to our configured age limit
             expired = False
             if self.mode == "age":
-                age_limit = original_expiration_time
                 if self.override_lease_duration is not None:
-                    age_limit = self.override_lease_duration
-                if age > age_limit:
+                    if age > self.override_lease_duration:
+                        expired = True
+                elif original_expiration_time < now:
+                    # no override: the lease's own duration applies
                     expired = True
             else:
                 assert self.mode == "cutoff-date"
